@@ -112,3 +112,35 @@ Proof.
   rewrite H. destruct (d <? two63) eqn:E; [|lia].
   fold (target_value d). apply target_value_exact. unfold two63, two64 in *; lia.
 Qed.
+
+(* ---- the model IS the source: pow.getTargetByDifficulty and pow.greaterDifficulty as translated by go2coq from
+   pow/pow.go on every run (gen/Pure.v). The [8]byte target is the little-endian uint64 it holds; the byte slices of
+   greaterDifficulty enter byte by byte with their lengths (an index beyond the length is a Panic of the translation). *)
+From ZV Require Import GoSem.
+From ZV.gen Require Pure Consts.
+Lemma target_value_is_source d : Pure.getTargetByDifficulty d = Ok (target_value d).
+Proof.
+  unfold Pure.getTargetByDifficulty, target_value, guard, wrapU.
+  destruct (d =? 0) eqn:E; [reflexivity|]. cbn [negb].
+  change (Consts.Big2 ^ Consts.Big64) with two64. change (2 ^ 64) with two64.
+  f_equal. unfold big_uint64. apply Z.mod_small. apply Z.mod_pos_bound. reflexivity.
+Qed.
+
+Lemma greater_is_source x0 x1 x2 x3 x4 x5 x6 x7 tx y0 y1 y2 y3 y4 y5 y6 y7 ty :
+  let x := [x0; x1; x2; x3; x4; x5; x6; x7] ++ tx in
+  let y := [y0; y1; y2; y3; y4; y5; y6; y7] ++ ty in
+  Pure.greaterDifficulty (Z.of_nat (length x)) x7 (Z.of_nat (length y)) y7 x6 y6 x5 y5 x4 y4 x3 y3 x2 y2 x1 y1 x0 y0
+  = Ok (greater x y).
+Proof.
+  intros x y.
+  assert (Lx : 8 <= Z.of_nat (length x)) by (unfold x; rewrite app_length; cbn [length]; lia).
+  assert (Ly : 8 <= Z.of_nat (length y)) by (unfold y; rewrite app_length; cbn [length]; lia).
+  set (lx := Z.of_nat (length x)) in *. set (ly := Z.of_nat (length y)) in *.
+  unfold Pure.greaterDifficulty, guard.
+  repeat match goal with
+         | |- context [(0 <=? ?k) && (?k <? ?l)] =>
+             replace ((0 <=? k) && (k <? l)) with true by (symmetry; apply andb_true_iff; split; lia)
+         end.
+  unfold greater, x, y. cbn [app firstn rev greater_rev].
+  repeat match goal with |- context [?a <? ?b] => destruct (a <? b); try reflexivity end.
+Qed.
